@@ -1,5 +1,6 @@
 import EtVerif.Props.C10
 import EtVerif.Props.TrC10
+import EtVerif.Props.TrGo10
 #print axioms EtVerif.C10.newCSR_cells
 #print axioms EtVerif.C10.newCSR_stored
 #print axioms EtVerif.C10.newCSR_no_zero
@@ -37,3 +38,16 @@ import EtVerif.Props.TrC10
 #print axioms EtVerif.TrC10.newCSR_refines
 #print axioms EtVerif.TrC10.rowVector_refines
 #print axioms EtVerif.TrC10.setRowVector_refines
+-- the property stated about the translated Go code (composition of refinement and model-level theorems)
+#print axioms EtVerif.TrGo10.go_newCSR_cells
+#print axioms EtVerif.TrGo10.go_newCSR_stored
+#print axioms EtVerif.TrGo10.go_newCSR_wf
+#print axioms EtVerif.TrGo10.go_newCSR_perm
+#print axioms EtVerif.TrGo10.go_transpose_den
+#print axioms EtVerif.TrGo10.go_transpose_stored
+#print axioms EtVerif.TrGo10.go_transpose_involutive
+#print axioms EtVerif.TrGo10.go_rowVector_view
+#print axioms EtVerif.TrGo10.go_colVector_view
+#print axioms EtVerif.TrGo10.go_setMinorDim_crop
+#print axioms EtVerif.TrGo10.go_vector_setDim
+#print axioms EtVerif.TrGo10.go_setMinorDim_shrink_then_grow
